@@ -250,6 +250,31 @@ def isolate(pvl, dialect, cfg, gm, reader, first):
     strip(skel)
     o = roundtrip(pvl, dialect, cfg, skel, reader)
     names = sorted({c for _, c, _ in gm.names})
+    # one nameable mechanism: a block name that ends in '-' (cannot be quoted)
+    if any(n.endswith("-") for n, _, _ in gm.names):
+        ren = clone(gm.module)
+
+        def rename(c):
+            items = []
+            for k, v in list(c):
+                if is_container(v):
+                    rename(v)
+                    if k.endswith("-"):
+                        k = k + "x"
+                items.append((k, v))
+            c.clear()
+            for k, v in items:
+                c.append(k, v)
+
+        rename(ren)
+        o2 = roundtrip(pvl, dialect, cfg, ren, reader)
+        if not o2.bad:
+            wit = {"dialect": dialect, "reader": reader, "cfg": cfg,
+                   "module": repr(gm.module)[:1500], "text": first.text}
+            return [(first.kind.split(":")[0],
+                     {"mechanism": "block-name-ends-with-dash",
+                      "statement_delimiter": bool(cfg.get("end_delimiter"))},
+                     wit, first.detail)]
     feats = {
         "structure_alone_fails": o.bad,
         "duplicate_keys": gm.has_dup,
